@@ -13,7 +13,7 @@ from .c10 import EXEMPT
 ID = 'C18'
 RULE = ('host models = (errno table, signal enum, address-family enum, socket-kind enum, SOL_SOCKET): the real host, '
         'Darwin, an empty host, a BSD-numbered host (Darwin up to 81, its own names beyond), close relatives of Darwin (a handful of entries renamed / moved / missing) and generated permutations / sparse subsets of the names; installed by swapping '
-        'errno.errorcode in place and rebinding signal.Signals, socket.AddressFamily, socket.SocketKind and '
+        'errno.errorcode in place (the E* constants, their second names such as EWOULDBLOCK, and os.strerror follow the model) and rebinding signal.Signals, socket.AddressFamily, socket.SocketKind and '
         'socket.SOL_SOCKET in their home modules and in every module global of pykdebugparser.* that is identical to '
         'them; plus one RELOAD of the decoder modules on an "alien platform" (every integer constant of errno / socket / '
         'signal renumbered or removed), on the BSD-numbered host, on the Darwin model and on a close relative, so that tables built from the host at import time are seen too. Cases: every BSD decoder x EVERY error code 1..140 x 2 (quick) / 4 (thorough) START shapes under the real host and the Darwin model (errno table and E* constants swapped); every BSD decoder x sampled codes under all five models, sigaction 1..31, '
@@ -54,6 +54,19 @@ def host(model):
         for code, nm in model['errno'].items():       # the E* constants of the errno module follow the table
             saved_consts[nm] = getattr(errno, nm, None)
             setattr(errno, nm, code)
+        # ... and so do the second names a platform gives to a code (EWOULDBLOCK is EAGAIN's number, whatever that number is)
+        by_name = {nm: code for code, nm in model['errno'].items()}
+        for names in ({'EAGAIN', 'EWOULDBLOCK'}, {'EDEADLK', 'EDEADLOCK'}, {'ENOTSUP', 'EOPNOTSUPP'} if 'EOPNOTSUPP' not in by_name or 'ENOTSUP' not in by_name else set()):
+            have = [n for n in names if n in by_name]
+            for n in names:
+                if have and n not in by_name:
+                    saved_consts.setdefault(n, getattr(errno, n, None))
+                    setattr(errno, n, by_name[have[0]])
+        # strerror() speaks the platform's numbering too
+        import os as _os
+        saved_strerror = _os.strerror
+        _os.strerror = lambda code, _m=model['errno']: f'{_m[code]} on this host' if code in _m else f'Unknown error {code}'
+        patched.append((_os, 'strerror', saved_strerror))
         for m in mods:
             for attr, obj in list(vars(m).items()):
                 for key, o in orig.items():
@@ -137,11 +150,11 @@ def models(seed):
             ('near-darwin%d' % (seed % 53), near_darwin_model(seed))]
 
 
-def render_under(name, a, e, seed):
+def render_under(name, a, e, seed, lookups=()):
     out = {}
     for label, m in models(seed):
         with host(m):
-            out[label] = render(name, a, e)
+            out[label] = render(name, a, e, lookups)
     return out
 
 
@@ -159,7 +172,9 @@ def prop_errno(ctx, case):
     d = domains.project(name, 1, S.expand_words(seed + 4096, 0))
     a = [int.from_bytes(d[8 * i:8 * i + 8], 'little') for i in range(4)]
     e = [code, 77, 78, 79]
-    txt = check_same(name, guard(render_under, name, a, e, seed), 'errno')
+    # a third of the failing calls carry looked-up paths (a decoder may say more about a failure when it knows the file)
+    lookups = [b'/usr/bin/tool', b'/usr/lib/dyld'][:1 + seed % 2] if seed % 3 == 0 else []
+    txt = check_same(name, guard(render_under, name, a, e, seed, lookups), 'errno')
     sc = TP.split_call(txt)
     rest = sc[2] if sc else txt
     if code:
@@ -244,7 +259,7 @@ def prop_errno_sweep(ctx, case):
         texts = {}
         for label, m in (('host', None), ('darwin', dm)):
             with host(m):
-                texts[label] = [guard(render, name, av, [code, 77, 78, 79]) for code in range(1, 141)]
+                texts[label] = [guard(render, name, av, [code, 77, 78, 79], [b'/usr/bin/tool'] if av is variants[0] else ()) for code in range(1, 141)]
         for code, th, td in zip(range(1, 141), texts['host'], texts['darwin']):
             if th != td:
                 raise Violation(f'host-dependent:errno:{name}', f'{name} error {code}: on this host {th!r}, under the Darwin host model {td!r}')
